@@ -628,7 +628,34 @@ func (e *Engine) checkPost(st *State, fr *Frame, c *Contract, rets []*Val) {
 		if label == "" {
 			label = fmt.Sprint(i)
 		}
-		e.emit(st, "post", "post#"+label, e.evalBool(env, en), "ensures "+en.Text)
+		var g string
+		if strings.HasPrefix(label, "local-") {
+			// helper clause over local variables: skipped on paths where
+			// the variable was never assigned
+			lenv := *env
+			lenv.localsOK = true
+			ok := true
+			func() {
+				defer func() {
+					if r := recover(); r != nil {
+						if s, isS := r.(string); isS && strings.Contains(s, "unknown identifier") {
+							ok = false
+							return
+						}
+						panic(r)
+					}
+				}()
+				g = e.evalBool(&lenv, en)
+			}()
+			if !ok {
+				continue
+			}
+		} else {
+			g = e.evalBool(env, en)
+		}
+		e.emit(st, "post", "post#"+label, g, "ensures "+en.Text)
+		// an established clause may be used for the following ones (same path)
+		st.assume(g)
 	}
 	e.checkFrame(st, fr, c)
 	e.pathCount++
@@ -1136,9 +1163,9 @@ func (e *Engine) arith(op token.Token, a, b string, t types.Type) string {
 	}
 	switch op {
 	case token.ADD:
-		return e.wrap(sx("+", a, b), t)
+		return e.wrap1(sx("+", a, b), t)
 	case token.SUB:
-		return e.wrap(sx("-", a, b), t)
+		return e.wrap1(sx("-", a, b), t)
 	case token.MUL:
 		return e.wrap(sx("*", a, b), t)
 	case token.QUO:
@@ -1492,7 +1519,7 @@ func (e *Engine) indexAddr(st *State, x *ssa.IndexAddr) {
 	case *types.Slice:
 		ln := sx("sl_len", base.T)
 		e.emit(st, "bounds", e.site(x, "bounds"), and(sx("<=", "0", idx), sx("<", idx, ln)), "slice index in range "+e.posOf(x.Pos()))
-		abs := sx("+", sx("sl_off", base.T), idx)
+		abs := e.at(sx("sl_off", base.T), idx)
 		e.set(st, x, &Val{Addr: &Addr{Kind: aElem, Ref: sx("sl_reg", base.T), Idx: abs, Base: bt.Elem()}, Ty: x.Type()})
 	case *types.Pointer:
 		at := bt.Elem().Underlying().(*types.Array)
